@@ -97,7 +97,10 @@ StoreBad(e) ==
                     /\ Bs(e.ct_head) = Cipher(key, m.nonce, CtrOf(id), Bs(e.p_head))
                     /\ Bs(e.ct_tail) = Cipher(key, m.nonce, AddSmall32(CtrOf(id), e.tail_blk), Bs(e.p_tail))
                  THEN {} ELSE {"C11.ciphertext-not-chacha20-under-shares-key"})
-                \cup (IF Has(e, "p") /\ Hash(Bs(e.p)) # m.hash THEN {"C11.hash-mismatch"} ELSE {}))
+                \cup (IF Has(e, "p") /\ Hash(Bs(e.p)) # m.hash THEN {"C11.hash-mismatch"} ELSE {})
+                \* thorough tier: the whole payload and ciphertext of one large store are logged
+                \cup (IF Has(e, "p") /\ Has(e, "ct") /\ Bs(e.ct) # Cipher(key, m.nonce, CtrOf(id), Bs(e.p))
+                      THEN {"C11.ciphertext-not-chacha20-under-shares-key"} ELSE {}))
 
 StoreEval(e) ==
     LET bad == StoreBad(e) m == Mf(e.m) id == Bs(e.id)
@@ -220,7 +223,6 @@ Eval(e) ==
       [] e.op = "fetch" -> FetchEval(e)
       [] e.op = "tamper" -> TamperEval(e)
       [] e.op = "manifest" -> ManifestEval(e)
-      [] e.op = "terminated" -> [bad |-> {"C11.abnormal-termination"}, ghost |-> ghost, slots |-> slots, st |-> stats]
       [] OTHER -> Keep
 
 Lanes == T[1]
